@@ -69,6 +69,17 @@ class G16:
                 self.names.add(nm)
                 return nm
 
+    def sp(self, nm):
+        """A spelling of the (lower-case) name nm: Fortran is case-insensitive, tables are keyed in lower case."""
+        c = self.r.n(0, 5)
+        if c <= 2:
+            return nm
+        if c == 3:
+            return nm.upper()
+        if c == 4:
+            return nm.capitalize()
+        return "".join(ch.upper() if i % 2 else ch for i, ch in enumerate(nm))
+
     def emit(self, s):
         self.lines.append(s)
 
@@ -81,11 +92,11 @@ class G16:
                 self.emit("use %s" % m)
             elif c == 1:
                 nm = r.pick(list(INTR) + ORD)
-                self.emit("use %s, only: %s" % (m, nm))
+                self.emit("use %s, only: %s" % (m, self.sp(nm)))
                 sc.imported.add(nm)
             elif c == 2:
                 nm = r.pick(list(INTR) + ORD)
-                self.emit("use %s, %s => remote_x" % (m, nm))
+                self.emit("use %s, %s => remote_x" % (m, self.sp(nm)))
                 sc.imported.add(nm)
             else:
                 nm = r.pick(list(INTR))
@@ -100,7 +111,7 @@ class G16:
                     names.append(nm)
             t = r.pick(TYPES)
             arr = "(10)"
-            self.emit("%s :: %s" % (t, ", ".join(n + arr for n in names)))
+            self.emit("%s :: %s" % (t, ", ".join(self.sp(n) + arr for n in names)))
             sc.decl.update(names)
 
     def ref(self, sc):
@@ -112,7 +123,7 @@ class G16:
         args = ", ".join(["1.0", "2.0"][:nargs]) if nm in INTR and nm not in ("sum", "size") else "1"
         if nm in ("sum", "size"):
             args = "vv"
-        self.emit("%s = %s(%s)" % (rid, nm, args))
+        self.emit("%s = %s(%s)" % (rid, self.sp(nm), args))
         self.refs.append([rid, nm, sc, nm in INTR and not sc.visible(nm)])
 
     def exec_part(self, sc, depth):
@@ -151,8 +162,9 @@ class G16:
         if r.chance(40):
             nm = self.uname("blk")
             b = Scope("block", nm, sc)
-            self.emit("%s: block" % nm)
-            end = "end block %s" % nm
+            spn = self.sp(nm)
+            self.emit("%s: block" % spn)
+            end = "end block %s" % self.sp(nm)
         else:
             b = Scope("block", None, sc)
             self.emit("block")
@@ -172,7 +184,7 @@ class G16:
         if parent is None:
             self.tops.append(sc)
         isf = r.chance(30)
-        self.emit(("function %s()" if isf else "subroutine %s") % nm)
+        self.emit(("function %s()" if isf else "subroutine %s") % self.sp(nm))
         self.spec(sc)
         self._had_block = False
         self.exec_part(sc, 1)
@@ -180,7 +192,7 @@ class G16:
             self.emit("contains")
             for _ in range(r.n(1, 2)):
                 self.subprogram(sc, depth + 1, allow_contains=False)
-        self.emit("end %s %s" % ("function" if isf else "subroutine", nm))
+        self.emit("end %s %s" % ("function" if isf else "subroutine", self.sp(nm)))
 
     def program(self):
         r = self.r
@@ -196,13 +208,13 @@ class G16:
                 nm = self.uname("m")
                 sc = Scope(k, nm, None)
                 self.tops.append(sc)
-                self.emit("module %s" % nm if k == "module" else "submodule (parent_m) %s" % nm)
+                self.emit("module %s" % self.sp(nm) if k == "module" else "submodule (parent_m) %s" % self.sp(nm))
                 self.spec(sc)
                 if r.chance(60):
                     self.emit("contains")
                     for _ in range(r.n(1, 2)):
                         self.subprogram(sc, 1)
-                self.emit("end %s %s" % (k, nm))
+                self.emit("end %s %s" % (k, self.sp(nm)))
             elif k == "sub":
                 self.subprogram(None, 0)
             else:
@@ -211,7 +223,7 @@ class G16:
                 sc = Scope("program", nm, None)
                 self.tops.append(sc)
                 if with_stmt:
-                    self.emit("program %s" % nm)
+                    self.emit("program %s" % self.sp(nm))
                 self.spec(sc)
                 self._had_block = False
                 self.exec_part(sc, 1)
